@@ -79,3 +79,18 @@ CONTRACTS[SK + "build_skip_grams"] = dict(
     ensures=["len(result) >= 1", "unchanged(token_sequence) and unchanged(window_sizes)"],
     loops={"for#1": dict(invariant=["len(coo_tuples) >= 1"])},
 )
+
+# the corpus-level wrapper: one seeded record, every document's records appended, duplicates summed
+CONTRACTS[SK + "sequence_skip_grams"] = dict(
+    params=dict(token_sequences="list[int[]]", window_sizes="int[]", kernel_function="func", kernel_args="()", reverse="bool"),
+    func_params={"kernel_function": dict(returns="real[]", ensures=["len(ret) == len(arg0)"])},
+    local_types=dict(skip_grams="list[(real,real,real)]"),
+    requires=[
+        "forall(0, len(token_sequences), lambda d: forall(0, len(token_sequences[d]), lambda p: 0 <= token_sequences[d][p] and token_sequences[d][p] < len(window_sizes)))",
+        "forall(0, len(window_sizes), lambda t: window_sizes[t] >= 0)",
+    ],
+    returns="real[,]",
+    # one (head, tail, weight) row per distinct pair, at least the seeded one
+    ensures=["result.shape[0] >= 1 and result.shape[1] == 3", "unchanged(window_sizes)"],
+    loops={"for#1": dict(invariant=["len(skip_grams) >= 1"])},
+)
